@@ -3,9 +3,15 @@
    Families and what their edits vary (every family starts from base documents defined in Blueprint.tla):
      links  one block fuel/clad/liner/coolant/duct: dimension and mult links (any pin to any pin, chains, forward
             references), alternative numbers (including ones that overlap or overfill the block), dropped / reordered /
-            renamed components, a square pin, other temperatures
-     comp   custom isotopics in the three input formats on a Custom material, isotopics on a library material, UZr
-            modifications by block and by component with blank entries, a short list, duplicate isotopics
+            renamed components, a square pin, other temperatures;
+            a Sodium bond or a Void gap linked between fuel and clad (id: fuel.od, od: clad.id) with a fuel slug smaller
+            than, larger than the inside of, and larger than the outside of its cladding: two overlapping solids show only
+            as the negative area of the fluid between them (refused; a Void gap is exempt, Component._checkNegativeArea)
+     comp   (with a `nuclide flags` section) custom isotopics in the three input formats on a Custom material, isotopics on
+            library materials (steel on HT9; oxide vectors on UraniumOxide and UZr, one of them listing the balance isotope
+            U238 at exactly 0.0), the library oxide as it is, U235_wt_frac / ZR_wt_frac modifications by block and by
+            component with blank entries (enrichment = requested weight fraction of U235 within the uranium, also on top
+            of an override: Material.adjustMassFrac incl. its zero-balance branch), a short list, duplicate isotopics
      stack  two assembly designs over three block designs: block order, heights, mesh points, xs types swapped, lists
             shortened / lengthened, specifiers and names changed (unknown / duplicate), heights off the reference mesh
      pins   a pin lattice (corners-up or flats-up hex, text map or explicit list): ids placed on the seven inner cells,
